@@ -233,6 +233,10 @@ class Drv:
             with open(fin) as f:
                 p = subprocess.run([PVDRV], stdin=f, stdout=subprocess.PIPE, stderr=subprocess.PIPE, text=True)
             if p.returncode != 0:
+                keep = os.environ.get("PVDRV_KEEP")
+                if keep:
+                    import shutil
+                    shutil.copy(fin, keep)
                 raise InfraError("pvdrv crashed: rc=%s %s" % (p.returncode, p.stderr[-2000:]))
             lines = p.stdout.split("\n")
             if lines and lines[-1] == "":
